@@ -9,7 +9,7 @@ import traceback
 import z3
 
 from .sym import (Sym, SymInt, SymBool, SymStr, SymFloat, SymList, Path, Unsupported, SymbolicEscape,
-                  EngineSignal, Infeasible, PathLimit, ObligationResult, z3_to_py, _i, _b, _s, _f, is_sym,
+                  EngineSignal, Infeasible, PathEnd, PathLimit, ObligationResult, z3_to_py, _i, _b, _s, _f, is_sym,
                   land, lor, lnot, implies, ite, F64)
 from .interp import Interp, PyExc, LoopSpec, func_info, qualname_of
 from . import models
@@ -99,6 +99,8 @@ class Explorer:
             except Infeasible:
                 self.stats['infeasible'] += 1
                 err = ('infeasible', '')
+            except PathEnd:
+                err = None
             except Unsupported as e:
                 err = ('undecided', f'{type(e).__name__}: {e}')
             except PathLimit as e:
@@ -119,7 +121,8 @@ class Harness:
     """What a sidecar contract talks to.  Same code runs in symbolic mode (proof) and concrete mode (replay)."""
 
     def __init__(self, path=None, values=None, model=None, loops=None, contracts=None, natives=None,
-                 assumed=None, dropped=None):
+                 assumed=None, dropped=None, rng=None):
+        self.rng = rng                # concrete mode: random witness search (values drawn within the declared bounds)
         self.path = path
         self.symbolic = path is not None
         self.values = values          # concrete mode: dict name -> value (from a replay file)
@@ -140,7 +143,47 @@ class Harness:
         self._arrays = {}
 
     # ---- inputs
-    def _concrete(self, name, term, default):
+    def _rand_int(self, lo, hi):
+        r = self.rng
+        lo = -(2 ** 31) if lo is None else lo
+        hi = 2 ** 31 if hi is None else hi
+        k = r.random()
+        if k < 0.25:
+            return r.choice([lo, hi, min(max(0, lo), hi), min(max(1, lo), hi), min(max(-1, lo), hi)])
+        if k < 0.75:
+            a, b = max(lo, -4), min(hi, 6)
+            if a <= b:
+                return r.randint(a, b)
+        return r.randint(lo, hi)
+
+    def _rand_str(self):
+        r = self.rng
+        n = r.choice([0, 1, 1, 2, 3, 5, 8])
+        return ''.join(r.choice(' ,"a1-.+eE\t0#') for _ in range(n))
+
+    def _rand_float(self, single=False):
+        import struct as _st
+        r = self.rng
+        k = r.random()
+        if k < 0.3:
+            v = r.choice([0.0, 1.0, -1.0, 0.5, 1.5, 2.5, -2.5, 1e10, 1e-10, 32767.5, -32768.5, 2147483647.5, 3.4e38, 1e308])
+        elif k < 0.7:
+            v = r.uniform(-100, 100)
+        else:
+            v = r.uniform(-1, 1) * 10 ** r.randint(-30, 38)
+        if single:
+            try:
+                v = _st.unpack('>f', _st.pack('>f', v))[0]
+            except OverflowError:
+                v = 1.0
+        return v
+
+    def _concrete(self, name, term, default, lo=None, hi=None, kind='int'):
+        if self.rng is not None:
+            v = {'int': lambda: self._rand_int(lo, hi), 'bool': lambda: self.rng.random() < 0.5,
+                 'str': self._rand_str, 'float': self._rand_float, 'float32': lambda: self._rand_float(True)}[kind]()
+            self.record[name] = v
+            return v
         if self.values is not None:
             v = self.values.get(name, default)
         else:
@@ -153,12 +196,12 @@ class Harness:
     def int(self, name, lo=None, hi=None):
         if self.symbolic:
             return self.path.int(name, lo, hi)
-        return self._concrete(name, z3.Int(name), lo if lo is not None else 0)
+        return self._concrete(name, z3.Int(name), lo if lo is not None else 0, lo, hi, 'int')
 
     def bool(self, name):
         if self.symbolic:
             return self.path.bool(name)
-        return self._concrete(name, z3.Bool(name), False)
+        return self._concrete(name, z3.Bool(name), False, kind='bool')
 
     def str(self, name, maxlen=None):
         if self.symbolic:
@@ -166,19 +209,19 @@ class Harness:
             if maxlen is not None:
                 self.path.assume(v.length() <= maxlen)
             return v
-        return self._concrete(name, z3.String(name), '')
+        return self._concrete(name, z3.String(name), '', kind='str')
 
     def float(self, name, finite=True):
         if self.symbolic:
             return self.path.float(name, finite)
-        v = self._concrete(name, z3.FP(name, F64), 0.0)
+        v = self._concrete(name, z3.FP(name, F64), 0.0, kind='float')
         return float(v)
 
     def float32(self, name, finite=True):
         if self.symbolic:
             return self.path.float32(name, finite)
         from .sym import F32
-        v = self._concrete(name, z3.FP(name, F32), 0.0)
+        v = self._concrete(name, z3.FP(name, F32), 0.0, kind='float32')
         return float(v)
 
     # ---- array-backed element values (for lazily initialised lists)
@@ -192,7 +235,9 @@ class Harness:
             if hi is not None:
                 self.path.assume(v <= hi)
             return v
-        if self.values is not None:
+        if self.rng is not None:
+            v = self._rand_int(lo, hi)
+        elif self.values is not None:
             v = self.values.get(name, lo if lo is not None else 0)
         else:
             a = z3.Array(arr, z3.IntSort(), z3.IntSort())
@@ -209,7 +254,9 @@ class Harness:
         if self.symbolic:
             a = z3.Array(arr, z3.IntSort(), z3.BoolSort())
             return SymBool(z3.Select(a, _i(idx)))
-        if self.values is not None:
+        if self.rng is not None:
+            v = self.rng.random() < 0.5
+        elif self.values is not None:
             v = self.values.get(name, False)
         else:
             a = z3.Array(arr, z3.IntSort(), z3.BoolSort())
@@ -222,7 +269,9 @@ class Harness:
         if self.symbolic:
             a = z3.Array(arr, z3.IntSort(), z3.StringSort())
             return SymStr(z3.Select(a, _i(idx)))
-        if self.values is not None:
+        if self.rng is not None:
+            v = self._rand_str()
+        elif self.values is not None:
             v = self.values.get(name, '')
         else:
             a = z3.Array(arr, z3.IntSort(), z3.StringSort())
@@ -238,7 +287,9 @@ class Harness:
             if finite:
                 self.path.assume(SymBool(z3.And(z3.Not(z3.fpIsNaN(v.term)), z3.Not(z3.fpIsInf(v.term)))))
             return v
-        if self.values is not None:
+        if self.rng is not None:
+            v = self._rand_float()
+        elif self.values is not None:
             v = self.values.get(name, 0.0)
         else:
             a = z3.Array(arr, z3.IntSort(), F64)
@@ -253,6 +304,38 @@ class Harness:
         if length > max_concrete:
             raise ReplayImpossible(f'list {name} of length {length} too large to build concretely')
         return [factory(self, i) for i in range(length)]
+
+    def symdict(self, name, n, key, val, max_concrete=2048):
+        if self.symbolic:
+            from .sym import SymDict
+            return SymDict(name, n, key, val, self.path)
+        if n > max_concrete:
+            raise ReplayImpossible(f'dict {name} with {n} entries too large to build concretely')
+        return {key(i): val(i) for i in range(n)}
+
+    def set_loop(self, qualname, ordinal, spec):
+        if self.symbolic:
+            self.interp.loops[(qualname, ordinal)] = spec
+
+    def set_call(self, qualname, fn):
+        """callee contract (modular call): fn(interp, func, args, kwargs) -> value"""
+        if self.symbolic:
+            self.interp.contracts[qualname] = fn
+
+    def uf(self, name, *sorts):
+        """uninterpreted function (ghost/spec function characterised by assumed facts)"""
+        m = {'int': z3.IntSort(), 'str': z3.StringSort(), 'bool': z3.BoolSort()}
+        return z3.Function(name, *[m[x] for x in sorts])
+
+    def len(self, lst):
+        if isinstance(lst, SymList):
+            return lst.length
+        return len(lst)
+
+    def at(self, lst, i):
+        if isinstance(lst, SymList):
+            return lst.get(i)
+        return lst[i]
 
     # ---- running code
     def call(self, func, *args, **kwargs):
